@@ -95,6 +95,34 @@ CLAIMS.update({
     ref="DESIGN.md §5 C15, §4.6"),
 })
 
+CLAIMS.update({
+ "C02": dict(
+    text="Coq theorems for all inputs and schedules: in every step a mailbox stays as it is, loses its head or gains one message at its tail (c02_mailbox_order_step), a handler does not start its next port operation while a delivery is outstanding (c02_program_order), a delivery needs room and appends (c02_enqueue_at_tail); computed instance: the documented A->B, A->C->B triangle with capacity-1 mailboxes under every choice list of length <= 4. Tie: triangle benches (optional relay, 1-5 roots, capacities 1..3) on 1..16 threads vs Sim.v + causal-order oracle at B.",
+    note=SIMNOTE + "PARTIAL: the trace-level happens-before theorem (ghost causal pasts) is not mechanised; the general property is decided on the implementation by the oracle for the generated family only.",
+    technique="Coq proof (per-step FIFO lemmas + computed instance) + differential bench correspondence + causal oracle",
+    ref="DESIGN.md §5 C02, §0"),
+ "C05": dict(
+    text="Coq theorems: executor level - in every reachable state of TaskSM (any interleaving of wakers, runner, canceller) no second runner ever starts and no poll happens on anything but the live future, at most one Runnable exists (c05_one_poller, from the 18-lemma invariant proof); model level - a task inside its init or a handler (including while suspended on a send or query) cannot start another message, and only the owner consumes its mailbox (c05_handler_sequential, c05_single_consumer). Tie: concurrent schedules on the verbatim task.rs (oracle: poll overlap / poll after end) + benches on 2..16 worker threads vs Sim.v.",
+    note=DNOTE + "PARTIAL: sequential consistency; steal/re-schedule paths of the multi-threaded executor exercised, not modelled; ownership of model+receiver by one task is a modelling assumption read off add_model.",
+    technique="Coq proof (inductive invariant over all interleavings of a coarse task state machine) + scheduled exploration on mirrored source + multi-threaded differential runs",
+    ref="DESIGN.md §5 C05"),
+ "C13": dict(
+    text="Coq theorems: the invariant of TaskSM.v holds in every state reachable from spawn / spawn_and_forget under any sequence of handle operations by any number of wakers/threads (c13_invariant_*, c13_step: one preservation lemma per operation, 18 in all); its meaning (c13_meaning): single poller, no poll after end, Runnable exists iff POLLING and (wake count <> 0 or CLOSED) - so a wake while pending always leaves a Runnable -, refs = live handles, future dropped <= 1, output dropped/taken <= 1, memory freed <= 1, no access after free, no leak; layout lemmas against the constants regenerated from task.rs (c13_initial_words). Tie: handle-operation scripts for 2-3 threads over scripted futures on the verbatim task.rs under the deterministic scheduler (all schedule prefixes up to a bound on the 8 loom scenario shapes + random), oracle with drop counters, poll flags and a quarantine allocator.",
+    note=DNOTE + "PARTIAL: TaskSM is coarse (one step = one read-modify-write + its dependent release effects; run() and the idle-cancel path split at every RMW): interleavings inside the release effects and weak-memory behaviours are not covered; real traces are judged by the oracle, not replayed step by step in the model; counter saturation excluded.",
+    technique="Coq proof (inductive invariant, case analysis + lia per operation) + T1 constant translation + oracle-judged scheduled exploration on mirrored source",
+    ref="DESIGN.md §5 C13, Appendix B"),
+ "C14": dict(
+    text="Coq theorems: a query addresses exactly the accepting connections with mapped requests and consecutive slots in connection order (c14_requests), the requester proceeds only when all replies are in (c14_waits_for_all) and yields them in slot = connection order (c14_yields_in_connection_order), a reply fills exactly its slot (c14_reply_matched); CachedRwLock: after a write through any clone every clone's next read/write_scratchpad starts from the updated list, scratchpad edits are local, the epoch invariant holds in every reachable state (c14_clones_*); instance under all short schedules. Tie: query benches with 0..6 connections, filters, maps, nested queries and capacity-1 replier mailboxes on 1..16 threads vs Sim.v + reply oracle; op sequences on the verbatim cached_rw_lock.rs vs CachedRw.v.",
+    note=SIMNOTE + "PARTIAL: BroadcastFuture's poll loop and TaskSet are not modelled (Broadcast.v / TaskSetConc.v not built): completion orders are exercised, spurious wake-ups are not injected; reply iterators are always fully consumed by the harness; connect-during-run is covered only by the CachedRw theorems.",
+    technique="Coq proof (query step lemmas + CachedRw invariant) + differential bench / op-sequence correspondence + reply oracle",
+    ref="DESIGN.md §5 C14"),
+ "C19": dict(
+    text="Coq theorems (task level): in every reachable state of TaskSM the invariant holds, and once every handle is gone the memory has been freed exactly once, the future dropped exactly once, nothing accessed after release (c19_cancel_releases, c19_no_leak_no_double_free) - cancellation racing with wakers and a runner is what an executor drop does to each task. Tie: cancel-heavy schedules on the verbatim task.rs; the Simulation is dropped at the end of fault / deadlock / hierarchy / scheduling benches (pending actions, blocked senders, pending queries) on 1..16 threads: every added model dropped exactly once, no model code afterwards, the drop returns (watchdog).",
+    note=DNOTE + "PARTIAL: the executor-level drop (ExecDrop: models, queued messages and pending futures each released once) is not modelled, only observed through drop counts of models; message payloads and pending futures are not drop-counted; joining of worker threads is observed as 'drop returns'.",
+    technique="Coq proof (task-level invariant corollaries) + scheduled exploration on mirrored source + drop-count observation on benches",
+    ref="DESIGN.md §5 C19"),
+})
+
 PENDING_REASON = "check not built yet in this snapshot (planned per DESIGN.md section 5/8); not claimed until its check exists"
 
 def main():
